@@ -411,7 +411,7 @@ GRID = [-1.0, 0.0, 0.5, 2.0]
 def gm_params(case):
     """-> (means as passed to elfi, means (k,d) for the oracle, cov as passed, weights as passed)."""
     d, k = case['d'], case['k']
-    m2 = MEAN_TABLE[:k, :d].copy()
+    m2 = MEAN_TABLE[:k, :d].copy() * case.get('mscale', 1)
     form = case.get('form', 'rows')
     if d == 1 and form == 'flat':
         m = m2[:, 0].copy()
@@ -477,9 +477,13 @@ def run_gm_pdf(case):
     m, m2, cov_arg, w_arg = gm_params(case)
     kw = _gm_kwargs(cov_arg, w_arg)
     pts = list(itertools.product(GRID, repeat=d))
+    if case.get('mscale'):
+        # well separated components: the component means themselves are query points (there a component of tiny
+        # weight is the dominant term of the sum although its weight is far below machine epsilon)
+        pts = [tuple(float(v) for v in r) for r in m2] + pts
     evals = 0
     outs = []
-    for idx, (name, xarg, P) in enumerate(_x_forms(d, pts, case.get('quick', False))):
+    for idx, (name, xarg, P) in enumerate(_x_forms(d, pts, case.get('quick', False) and not case.get('mscale'))):
         if 'xform' in case and idx != case['xform']:
             continue
         wit = dict(case, xform=idx)
@@ -855,6 +859,14 @@ def run(ctx):
                         if form == 'list' and (cov not in ('default', covs[-1])):
                             continue
                         cases.append({'kind': 'gm-pdf', 'd': d, 'k': k, 'form': form, 'cov': cov, 'w': w, 'quick': q})
+    # well separated components with weights many orders of magnitude apart (an SMC population after a sharp threshold)
+    tiny_w = {2: [[1e-18, 1], [1, 3e-17], [1e-300, 1e-290]], 3: [[1e-18, 1, 3e-17], [2.0, 1e-20, 1e-30]]}
+    for d in (1, 2, 3):
+        for k in (2, 3):
+            for cov in (['default', 's2'] if q else list(COVS[d])):
+                for w in tiny_w[k]:
+                    cases.append({'kind': 'gm-pdf', 'd': d, 'k': k, 'form': 'rows', 'cov': cov, 'w': w, 'quick': q,
+                                  'mscale': 40})
     _run(ctx, run_gm_pdf, cases, 'gm-pdf', sample_every=max(1, len(cases) // 3))
 
     # ---- GM rvs, mode E
